@@ -32,8 +32,17 @@ def main():
         s = re.sub(r'<!-- CATCH-MATRIX-BEGIN -->.*?<!-- CATCH-MATRIX-END -->', lambda m: block, s, flags=re.S)
     else:
         s = s.replace("(filled in as the seeded changes are confirmed; see `/verif/seeded/`)", block)
+    # the list of fix commits / known findings, from known_findings.json
+    kf = json.load(open(os.path.join(ROOT, 'known_findings.json')))['findings']
+    frows = ['| property | key | status | /repo commit | what |', '|---|---|---|---|---|']
+    for e in kf:
+        what = re.sub(r'^(fixed|known)[^:]*: property=C\d+ (\w+ )?', '', e.get('what', ''))[:230].replace('|', '/').replace('\n', ' ')
+        frows.append('| %s | `%s` | %s | %s | %s |' % (e['property'], e['key'], e['status'], e.get('commit', '-'), what))
+    fblock = '<!-- FIX-TABLE-BEGIN -->\n' + '\n'.join(frows) + '\n<!-- FIX-TABLE-END -->'
+    if '<!-- FIX-TABLE-BEGIN -->' in s:
+        s = re.sub(r'<!-- FIX-TABLE-BEGIN -->.*?<!-- FIX-TABLE-END -->', lambda m: fblock, s, flags=re.S)
     open(p, 'w').write(s)
-    print(len(rows), 'rows')
+    print(len(rows), 'rows;', len(frows) - 2, 'findings')
 
 
 if __name__ == '__main__':
